@@ -14,7 +14,7 @@
 (*   SingleByteDecoder::decode_to_utf8_raw / _utf16_raw                    *)
 (*   UserDefinedDecoder, ReplacementDecoder, Iso2022JpDecoder, Utf8Decoder *)
 (*   Handles: check_space_bmp/astral, copy_ascii_from_check_space_*        *)
-(* The one variant not yet transcribed (EUC-JP) uses the                   *)
+(* All variants are transcribed; the generic shape remains for reference:  *)
 (* generic decoder_function! shape driven by Layer S ("abstract variant"): *)
 (* contract-conformant, but not expected to predict the real code's exact  *)
 (* stopping points.                                                        *)
@@ -479,9 +479,78 @@ GbRaw(v, c) ==
   ELSE GbResume(v, c)
 
 (***************************************************************************)
+(* euc_jp_decoder_function!.  v.st is Layer S's EUC-JP state: a = 0x8E     *)
+(* (HalfWidthKatakana), 0x8F (Jis0212Shift), a lead byte with o = FALSE    *)
+(* (Jis0208Lead) or with o = TRUE (Jis0212Lead); check_space_bmp.          *)
+(* A bad byte after k bytes of a sequence is Malformed(k, 0) and un-read   *)
+(* if ASCII, Malformed(k + 1, 0) otherwise.                                *)
+(***************************************************************************)
+EjV(st) == [V0 EXCEPT !.st = st]
+EjCount(st) == IF st.o THEN 2 ELSE 1
+
+\* the byte at c.pos continues the sequence in state st: [kind, ret, c, st]
+\*   kind "ret" = Malformed returned, "char" = character written, "more" = 0x8F accepted a JIS X 0212 lead
+EjByte(st, c) ==
+  LET byte == Peek(c)
+      c1 == Adv(c, 1)
+      r == EucJpH(st, byte)
+      k == EjCount(st)
+  IN  IF r.err THEN
+        (IF r.restore # <<>> THEN [kind |-> "ret", ret |-> Ret(V0, "M", k, 0, c), c |-> c, st |-> Blank]
+         ELSE [kind |-> "ret", ret |-> Ret(V0, "M", k + 1, 0, c1), c |-> c1, st |-> Blank])
+      ELSE IF r.emit # <<>> THEN [kind |-> "char", ret |-> Ret(V0, "I", 0, 0, c1), c |-> Wr(c1, r.emit), st |-> Blank]
+      ELSE [kind |-> "more", ret |-> Ret(V0, "I", 0, 0, c1), c |-> c1, st |-> r.st]
+
+RECURSIVE EjOuter(_), EjMiddle(_, _), EjSeq(_, _), EjAfter(_)
+EjOuter(c) ==
+  LET srcRem == Len(c.src) - c.pos
+      dstRem == c.cap - c.w
+      length == IF dstRem < srcRem THEN dstRem ELSE srcRem
+      pending == IF dstRem < srcRem THEN "O" ELSE "I"
+      n == AsciiCount(c.src, c.pos, length)
+      c1 == CopyAscii(c, n)
+      ok == IF U8(c.sink) THEN SpaceBmp(c1) ELSE TRUE
+  IN  IF n = length THEN Ret(V0, pending, 0, 0, c1)
+      ELSE IF ~ok THEN Ret(V0, "O", 0, 0, c1)
+      ELSE EjMiddle(Adv(c1, 1), Peek(c1))
+
+\* non_ascii has been consumed
+EjMiddle(c, na) ==
+  IF InR(na, 161, 254) \/ na = 143 \/ na = 142 THEN EjSeq([Blank EXCEPT !.a = na], c)
+  ELSE Ret(V0, "M", 1, 0, c)
+
+\* inside one call there is no space check between the bytes of a sequence
+EjSeq(st, c) ==
+  IF SrcEmpty(c) THEN (IF c.last THEN Ret(V0, "M", EjCount(st), 0, c) ELSE Ret(EjV(st), "I", 0, 0, c))
+  ELSE LET t == EjByte(st, c) IN
+    IF t.kind = "ret" THEN t.ret
+    ELSE IF t.kind = "char" THEN EjAfter(t.c)
+    ELSE EjSeq(t.st, t.c)
+
+EjAfter(c) ==
+  IF SrcEmpty(c) THEN Ret(V0, "I", 0, 0, c)
+  ELSE IF ~SpaceBmp(c) THEN Ret(V0, "O", 0, 0, c)
+  ELSE LET b == Peek(c)
+           c1 == Adv(c, 1)
+       IN  IF b > 127 THEN EjMiddle(c1, b) ELSE EjOuter(Wr(c1, <<b>>))
+
+\* the "while !pending.is_none()" loop: source check, space check, one byte per iteration
+RECURSIVE EjResume(_, _)
+EjResume(v, c) ==
+  IF v.st.a = 0 THEN EjOuter(c)
+  ELSE IF SrcEmpty(c) THEN (IF c.last THEN Ret(V0, "M", EjCount(v.st), 0, c) ELSE Ret(v, "I", 0, 0, c))
+  ELSE IF ~SpaceBmp(c) THEN Ret(v, "O", 0, 0, c)
+  ELSE LET t == EjByte(v.st, c) IN
+    IF t.kind = "ret" THEN t.ret
+    ELSE IF t.kind = "char" THEN EjOuter(t.c)
+    ELSE EjResume(EjV(t.st), t.c)
+
+EucJpRaw(v, c) == EjResume(v, c)
+
+(***************************************************************************)
 (* VariantDecoder dispatch                                                 *)
 (***************************************************************************)
-ExactVariant(enc) == Family(enc) \in {"big5", "euckr", "sjis", "sb", "userdef", "repl", "iso2022jp", "utf8", "utf16be", "utf16le", "gb"}
+ExactVariant(enc) == Family(enc) \in {"big5", "euckr", "sjis", "sb", "userdef", "repl", "iso2022jp", "utf8", "utf16be", "utf16le", "gb", "eucjp"}
 
 Raw(enc, v, src, cap, last, sink) ==
   LET c == NewCtx(src, cap, last, sink)
@@ -495,6 +564,7 @@ Raw(enc, v, src, cap, last, sink) ==
         [] f = "utf16be" -> Utf16Raw(TRUE, v, c)
         [] f = "utf16le" -> Utf16Raw(FALSE, v, c)
         [] f = "gb" -> GbRaw(v, c)
+        [] f = "eucjp" -> EucJpRaw(v, c)
         [] OTHER -> DFGeneric(enc, "bmp", v, c)
 
 (***************************************************************************)
